@@ -102,6 +102,7 @@ struct Gate {
     credits: u64,
     waker: Option<Waker>,
     clone_req: Option<usize>, // slot index to put a clone of the stream into
+    async_drop_req: bool,     // release the stream through AsyncDrop::async_drop
 }
 type GateRc = Rc<RefCell<Gate>>;
 struct WaitCredit(GateRc);
@@ -109,6 +110,9 @@ impl Future for WaitCredit {
     type Output = Option<usize>;
     fn poll(self: Pin<&mut Self>, cx: &mut Context<'_>) -> Poll<Option<usize>> {
         let mut g = self.0.borrow_mut();
+        if g.async_drop_req {
+            return Poll::Ready(Some(usize::MAX));
+        }
         if let Some(slot) = g.clone_req.take() {
             return Poll::Ready(Some(slot));
         }
@@ -214,6 +218,12 @@ fn consumer(sh: Sh, conn: Connection, s: usize, rule: Option<String>, cap: Optio
         drop(conn);
         loop {
             if let Some(slot) = WaitCredit(gate.clone()).await {
+                if slot == usize::MAX {
+                    emit(&sh, json!({"ev":"StreamDrop","stream":s,"how":"async_drop"}));
+                    zbus::AsyncDrop::async_drop(stream).await;
+                    emit(&sh, json!({"ev":"StreamAsyncDropped","stream":s}));
+                    return json!("async-dropped");
+                }
                 slots.borrow_mut().insert(slot, stream.clone());
                 emit(&sh, json!({"ev":"StreamCloned","stream":s,"into":slot}));
                 continue;
@@ -482,6 +492,22 @@ impl Run {
                         let conn = self.conn.as_ref().unwrap().clone();
                         let t = self.sched.add(&format!("stream{s2}"), consumer(self.sh.clone(), conn, s2, None, None, g2, self.slots.clone(), true, s));
                         self.stream_task.insert(s2, t);
+                        self.sched.poll(t);
+                    }
+                }
+            }
+            "asyncdrop" => {
+                let s = a(1);
+                if let (Some(g), Some(&t)) = (self.gates.get(&s), self.stream_task.get(&s)) {
+                    if !self.sched.done(t) && self.created("Subscribed", "stream", s) {
+                        let w = {
+                            let mut g = g.borrow_mut();
+                            g.async_drop_req = true;
+                            g.waker.take()
+                        };
+                        if let Some(w) = w {
+                            w.wake();
+                        }
                         self.sched.poll(t);
                     }
                 }
